@@ -13,7 +13,7 @@
   Core Lean only.
 -/
 import NngModel.Base.Bytes
-import NngModel.Generated.Consts
+import NngModel.Generated.C16H
 import NngModel.Model.Url
 namespace Nng.HttpConn
 open Nng
